@@ -28,8 +28,8 @@ def rg (p : Option Int × Option Int) : Range := ⟨p.1, p.2⟩
 def Spec.source : Spec where
   v2IdLen := rg FactsC18.rng_v2_CreateCollectionRequest_len_Id
   v1IdLen := rg FactsC18.rng_v1_CreateCollectionRequest_len_Id
-  v2PathLen := rg FactsC18.rng_v2_CollectionURIMiddleware_len_collectionId
-  v1PathLen := rg FactsC18.rng_v1_CollectionURIMiddleware_len_collectionId
+  v2PathLen := rg FactsC18.rng_v2_CollectionURIMiddleware_len_a3
+  v1PathLen := rg FactsC18.rng_v1_CollectionURIMiddleware_len_a3
   flatVecSize := rg FactsC18.rng_models_IndexVectorFlatParameters_VectorSize
   vamanaVecSize := rg FactsC18.rng_models_IndexVectorVamanaParameters_VectorSize
   vamanaSearchSize := rg FactsC18.rng_models_IndexVectorVamanaParameters_SearchSize
@@ -1571,70 +1571,70 @@ of the cluster layer.  Regenerated from the working tree on every run; any edit 
 that code breaks this `rfl` (then: re-read the Go, repair the model, re-pin).
 To re-pin: copy `skeleton` / `routes` from lean/SemaModel/Generated/FactsC18.lean. -/
 
-theorem C18_pin_routes : FactsC18.routes = ["root mux.Handle(\"/v1/\", http.StripPrefix(\"/v1\", httpv1.SetupV1Handlers(cnode)))",
-  "root mux.Handle(\"/v2/\", http.StripPrefix(\"/v2\", httpv2.SetupV2Handlers(cnode)))",
-  "v1 mux.HandleFunc(\"/ping\", handlePing)",
-  "v1 mux.HandleFunc(\"GET /collections\", semaDBHandlers.HandleListCollections)",
-  "v1 mux.HandleFunc(\"POST /collections\", semaDBHandlers.HandleCreateCollection)",
-  "v1 mux.Handle(\"GET /collections/{collectionId}\", withCol(semaDBHandlers.HandleGetCollection))",
-  "v1 mux.Handle(\"DELETE /collections/{collectionId}\", withCol(semaDBHandlers.HandleDeleteCollection))",
-  "v1 mux.Handle(\"POST /collections/{collectionId}/points\", withCol(semaDBHandlers.HandleInsertPoints))",
-  "v1 mux.Handle(\"PUT /collections/{collectionId}/points\", withCol(semaDBHandlers.HandleUpdatePoints))",
-  "v1 mux.Handle(\"DELETE /collections/{collectionId}/points\", withCol(semaDBHandlers.HandleDeletePoints))",
-  "v1 mux.Handle(\"POST /collections/{collectionId}/points/search\", withCol(semaDBHandlers.HandleSearchPoints))",
-  "v2 mux.HandleFunc(\"/ping\", handlePing)",
-  "v2 mux.HandleFunc(\"GET /collections\", semaDBHandlers.HandleListCollections)",
-  "v2 mux.HandleFunc(\"POST /collections\", semaDBHandlers.HandleCreateCollection)",
-  "v2 mux.Handle(\"GET /collections/{collectionId}\", withCol(semaDBHandlers.HandleGetCollection))",
-  "v2 mux.Handle(\"DELETE /collections/{collectionId}\", withCol(semaDBHandlers.HandleDeleteCollection))",
-  "v2 mux.Handle(\"POST /collections/{collectionId}/points\", withCol(semaDBHandlers.HandleInsertPoints))",
-  "v2 mux.Handle(\"PUT /collections/{collectionId}/points\", withCol(semaDBHandlers.HandleUpdatePoints))",
-  "v2 mux.Handle(\"DELETE /collections/{collectionId}/points\", withCol(semaDBHandlers.HandleDeletePoints))",
-  "v2 mux.Handle(\"POST /collections/{collectionId}/points/search\", withCol(semaDBHandlers.HandleSearchPoints))"] := rfl
+theorem C18_pin_routes : FactsC18.routes = ["root v5.Handle(\"/v1/\", http.StripPrefix(\"/v1\", httpv1.SetupV1Handlers(v1)))",
+  "root v5.Handle(\"/v2/\", http.StripPrefix(\"/v2\", httpv2.SetupV2Handlers(v1)))",
+  "v1 v2.HandleFunc(\"/ping\", handlePing)",
+  "v1 v2.HandleFunc(\"GET /collections\", v3.HandleListCollections)",
+  "v1 v2.HandleFunc(\"POST /collections\", v3.HandleCreateCollection)",
+  "v1 v2.Handle(\"GET /collections/{collectionId}\", v4(v3.HandleGetCollection))",
+  "v1 v2.Handle(\"DELETE /collections/{collectionId}\", v4(v3.HandleDeleteCollection))",
+  "v1 v2.Handle(\"POST /collections/{collectionId}/points\", v4(v3.HandleInsertPoints))",
+  "v1 v2.Handle(\"PUT /collections/{collectionId}/points\", v4(v3.HandleUpdatePoints))",
+  "v1 v2.Handle(\"DELETE /collections/{collectionId}/points\", v4(v3.HandleDeletePoints))",
+  "v1 v2.Handle(\"POST /collections/{collectionId}/points/search\", v4(v3.HandleSearchPoints))",
+  "v2 v2.HandleFunc(\"/ping\", handlePing)",
+  "v2 v2.HandleFunc(\"GET /collections\", v3.HandleListCollections)",
+  "v2 v2.HandleFunc(\"POST /collections\", v3.HandleCreateCollection)",
+  "v2 v2.Handle(\"GET /collections/{collectionId}\", v4(v3.HandleGetCollection))",
+  "v2 v2.Handle(\"DELETE /collections/{collectionId}\", v4(v3.HandleDeleteCollection))",
+  "v2 v2.Handle(\"POST /collections/{collectionId}/points\", v4(v3.HandleInsertPoints))",
+  "v2 v2.Handle(\"PUT /collections/{collectionId}/points\", v4(v3.HandleUpdatePoints))",
+  "v2 v2.Handle(\"DELETE /collections/{collectionId}/points\", v4(v3.HandleDeletePoints))",
+  "v2 v2.Handle(\"POST /collections/{collectionId}/points/search\", v4(v3.HandleSearchPoints))"] := rfl
 
 /-- the recursion sites the model's `Query.valid`, `Query.validSchema`, `Query.reach` and `Query.live` transcribe: which list
 (`q.And` / `q.Or`) and which filter `Query.Validate`, `Query.ValidateSchema` and `indexManager.Search` (shard/index/search.go)
 hand on, under which case of their switches — `_and` runs / checks the `_and` list, `_or` the `_or` list, a vector / text leaf
 its own filter, and `Validate` (alone) looks at every block and both lists -/
 theorem C18_pin_dispatch : FactsC18.dispatch = [
-  ("models.Query.Validate", "-", "call q.VectorFlat.Validate()"),
-  ("models.Query.Validate", "-", "call q.VectorVamana.Validate()"),
-  ("models.Query.Validate", "-", "call q.Text.Validate()"),
-  ("models.Query.Validate", "-", "call q.String.Validate()"),
-  ("models.Query.Validate", "-", "call q.Integer.Validate()"),
-  ("models.Query.Validate", "-", "call q.Float.Validate()"),
-  ("models.Query.Validate", "-", "call q.StringArray.Validate()"),
-  ("models.Query.Validate", "-", "range q.And"),
-  ("models.Query.Validate", "-", "call subQuery.Validate()"),
-  ("models.Query.Validate", "-", "range q.Or"),
-  ("models.Query.Validate", "-", "call subQuery.Validate()"),
-  ("models.Query.Validate", "case q.StringArray != nil", "range q.StringArray.Value"),
-  ("models.Query.ValidateSchema", "case \"_and\"", "range q.And"),
-  ("models.Query.ValidateSchema", "case \"_and\"", "call subQuery.ValidateSchema(schema)"),
-  ("models.Query.ValidateSchema", "case \"_or\"", "range q.Or"),
-  ("models.Query.ValidateSchema", "case \"_or\"", "call subQuery.ValidateSchema(schema)"),
-  ("models.Query.ValidateSchema", "case IndexTypeVectorFlat", "call q.VectorFlat.Filter.ValidateSchema(schema)"),
-  ("models.Query.ValidateSchema", "case IndexTypeVectorVamana", "call q.VectorVamana.Filter.ValidateSchema(schema)"),
-  ("models.Query.ValidateSchema", "case IndexTypeText", "call q.Text.Filter.ValidateSchema(schema)"),
-  ("index.indexManager.Search", "case \"_and\"", "call im.searchParallel(ctx, q.And, false)"),
-  ("index.indexManager.Search", "case \"_or\"", "call im.searchParallel(ctx, q.Or, true)"),
-  ("index.indexManager.Search", "case \"_id\"", "call im.searchById(q)"),
-  ("index.indexManager.Search", "case models.IndexTypeVectorVamana", "call im.Search(ctx, *q.VectorVamana.Filter)"),
-  ("index.indexManager.Search", "case models.IndexTypeVectorVamana", "call vamanaIndex.Search(ctx, *q.VectorVamana, filter)"),
-  ("index.indexManager.Search", "case models.IndexTypeVectorFlat", "call im.Search(ctx, *q.VectorFlat.Filter)"),
-  ("index.indexManager.Search", "case models.IndexTypeVectorFlat", "call flatIndex.Search(ctx, *q.VectorFlat, filter)"),
-  ("index.indexManager.Search", "case models.IndexTypeText", "call im.Search(ctx, *q.Text.Filter)"),
-  ("index.indexManager.Search", "case models.IndexTypeText", "call textIndex.Search(*q.Text, filter)"),
-  ("index.indexManager.Search", "case models.IndexTypeString", "call stringIndex.Search(*q.String)"),
-  ("index.indexManager.Search", "case models.IndexTypeStringArray", "call stringArrayIndex.Search(*q.StringArray)"),
-  ("index.indexManager.Search", "case models.IndexTypeInteger", "call integerIndex.Search(q.Integer.Value, q.Integer.EndValue, q.Integer.Operator)"),
-  ("index.indexManager.Search", "case models.IndexTypeFloat", "call floatIndex.Search(q.Float.Value, q.Float.EndValue, q.Float.Operator)")
+  ("models.Query.Validate", "-", "call v1.VectorFlat.Validate()"),
+  ("models.Query.Validate", "-", "call v1.VectorVamana.Validate()"),
+  ("models.Query.Validate", "-", "call v1.Text.Validate()"),
+  ("models.Query.Validate", "-", "call v1.String.Validate()"),
+  ("models.Query.Validate", "-", "call v1.Integer.Validate()"),
+  ("models.Query.Validate", "-", "call v1.Float.Validate()"),
+  ("models.Query.Validate", "-", "call v1.StringArray.Validate()"),
+  ("models.Query.Validate", "-", "range v1.And"),
+  ("models.Query.Validate", "-", "call v10.Validate()"),
+  ("models.Query.Validate", "-", "range v1.Or"),
+  ("models.Query.Validate", "-", "call v13.Validate()"),
+  ("models.Query.Validate", "case v1.StringArray != nil", "range v1.StringArray.Value"),
+  ("models.Query.ValidateSchema", "case \"_and\"", "range v1.And"),
+  ("models.Query.ValidateSchema", "case \"_and\"", "call v3.ValidateSchema(v2)"),
+  ("models.Query.ValidateSchema", "case \"_or\"", "range v1.Or"),
+  ("models.Query.ValidateSchema", "case \"_or\"", "call v5.ValidateSchema(v2)"),
+  ("models.Query.ValidateSchema", "case IndexTypeVectorFlat", "call v1.VectorFlat.Filter.ValidateSchema(v2)"),
+  ("models.Query.ValidateSchema", "case IndexTypeVectorVamana", "call v1.VectorVamana.Filter.ValidateSchema(v2)"),
+  ("models.Query.ValidateSchema", "case IndexTypeText", "call v1.Text.Filter.ValidateSchema(v2)"),
+  ("index.indexManager.Search", "case \"_and\"", "call v1.searchParallel(v2, v3.And, false)"),
+  ("index.indexManager.Search", "case \"_or\"", "call v1.searchParallel(v2, v3.Or, true)"),
+  ("index.indexManager.Search", "case \"_id\"", "call v1.searchById(v3)"),
+  ("index.indexManager.Search", "case models.IndexTypeVectorVamana", "call v1.Search(v2, *v3.VectorVamana.Filter)"),
+  ("index.indexManager.Search", "case models.IndexTypeVectorVamana", "call a2.Search(v2, *v3.VectorVamana, v11)"),
+  ("index.indexManager.Search", "case models.IndexTypeVectorFlat", "call v1.Search(v2, *v3.VectorFlat.Filter)"),
+  ("index.indexManager.Search", "case models.IndexTypeVectorFlat", "call a2.Search(v2, *v3.VectorFlat, v16)"),
+  ("index.indexManager.Search", "case models.IndexTypeText", "call v1.Search(v2, *v3.Text.Filter)"),
+  ("index.indexManager.Search", "case models.IndexTypeText", "call v22.Search(*v3.Text, v21)"),
+  ("index.indexManager.Search", "case models.IndexTypeString", "call v24.Search(*v3.String)"),
+  ("index.indexManager.Search", "case models.IndexTypeStringArray", "call v27.Search(*v3.StringArray)"),
+  ("index.indexManager.Search", "case models.IndexTypeInteger", "call v30.Search(v3.Integer.Value, v3.Integer.EndValue, v3.Integer.Operator)"),
+  ("index.indexManager.Search", "case models.IndexTypeFloat", "call v33.Search(v3.Float.Value, v3.Float.EndValue, v3.Float.Operator)")
 ] := rfl
 
 theorem C18_pin_skeleton : FactsC18.skeleton = [
-  ("models.IndexSchema.Validate", "if err != nil"),
-  ("models.IndexSchemaValue.Validate", "if v.Type != IndexTypeVectorFlat && v.Type != IndexTypeVectorVamana && v.Type != IndexTypeText && v.Type != IndexTypeString && v.Type != IndexTypeInteger && v.Type != IndexTypeFloat && v.Type != IndexTypeStringArray"),
-  ("models.IndexSchemaValue.Validate", "switch v.Type"),
+  ("models.IndexSchema.Validate", "if v3 != nil"),
+  ("models.IndexSchemaValue.Validate", "if v1.Type != IndexTypeFloat && v1.Type != IndexTypeInteger && v1.Type != IndexTypeString && v1.Type != IndexTypeStringArray && v1.Type != IndexTypeText && v1.Type != IndexTypeVectorFlat && v1.Type != IndexTypeVectorVamana"),
+  ("models.IndexSchemaValue.Validate", "switch v1.Type"),
   ("models.IndexSchemaValue.Validate", "case IndexTypeVectorFlat"),
   ("models.IndexSchemaValue.Validate", "case IndexTypeVectorVamana"),
   ("models.IndexSchemaValue.Validate", "case IndexTypeText"),
@@ -1643,26 +1643,26 @@ theorem C18_pin_skeleton : FactsC18.skeleton = [
   ("models.IndexSchemaValue.Validate", "case IndexTypeInteger"),
   ("models.IndexSchemaValue.Validate", "case IndexTypeFloat"),
   ("models.IndexSchemaValue.Validate", "default"),
-  ("models.IndexSchemaValue.Validate", "if v.VectorFlat == nil"),
-  ("models.IndexSchemaValue.Validate", "if v.VectorVamana == nil"),
-  ("models.IndexSchemaValue.Validate", "if v.Text == nil"),
-  ("models.IndexSchemaValue.Validate", "if v.String == nil"),
-  ("models.IndexSchemaValue.Validate", "if v.StringArray == nil"),
-  ("models.convertToVector", "typeswitch v := v.(type)"),
+  ("models.IndexSchemaValue.Validate", "if v1.VectorFlat == nil"),
+  ("models.IndexSchemaValue.Validate", "if v1.VectorVamana == nil"),
+  ("models.IndexSchemaValue.Validate", "if v1.Text == nil"),
+  ("models.IndexSchemaValue.Validate", "if v1.String == nil"),
+  ("models.IndexSchemaValue.Validate", "if v1.StringArray == nil"),
+  ("models.convertToVector", "typeswitch v3 := v1.(type)"),
   ("models.convertToVector", "case []float32"),
   ("models.convertToVector", "case []float64"),
   ("models.convertToVector", "case []any"),
   ("models.convertToVector", "default"),
-  ("models.convertToVector", "typeswitch f := f.(type)"),
+  ("models.convertToVector", "typeswitch v8 := v7.(type)"),
   ("models.convertToVector", "case float32"),
   ("models.convertToVector", "case float64"),
   ("models.convertToVector", "default"),
-  ("models.IndexSchema.CheckCompatibleMap", "if !ok"),
-  ("models.IndexSchema.CheckCompatibleMap", "if i == len(parts)-1"),
-  ("models.IndexSchema.CheckCompatibleMap", "if ok"),
-  ("models.IndexSchema.CheckCompatibleMap", "if ok"),
-  ("models.IndexSchema.CheckCompatibleMap", "if skip"),
-  ("models.IndexSchema.CheckCompatibleMap", "switch schema.Type"),
+  ("models.IndexSchema.CheckCompatibleMap", "if !v13"),
+  ("models.IndexSchema.CheckCompatibleMap", "if v10 == len(v5)-1"),
+  ("models.IndexSchema.CheckCompatibleMap", "if v15"),
+  ("models.IndexSchema.CheckCompatibleMap", "if v17"),
+  ("models.IndexSchema.CheckCompatibleMap", "if v9"),
+  ("models.IndexSchema.CheckCompatibleMap", "switch v4.Type"),
   ("models.IndexSchema.CheckCompatibleMap", "case IndexTypeVectorFlat"),
   ("models.IndexSchema.CheckCompatibleMap", "case IndexTypeVectorVamana"),
   ("models.IndexSchema.CheckCompatibleMap", "case IndexTypeText"),
@@ -1670,14 +1670,14 @@ theorem C18_pin_skeleton : FactsC18.skeleton = [
   ("models.IndexSchema.CheckCompatibleMap", "case IndexTypeInteger"),
   ("models.IndexSchema.CheckCompatibleMap", "case IndexTypeFloat"),
   ("models.IndexSchema.CheckCompatibleMap", "case IndexTypeStringArray"),
-  ("models.IndexSchema.CheckCompatibleMap", "if err != nil"),
-  ("models.IndexSchema.CheckCompatibleMap", "if schema.VectorFlat == nil"),
-  ("models.IndexSchema.CheckCompatibleMap", "if len(vector) != int(schema.VectorFlat.VectorSize)"),
-  ("models.IndexSchema.CheckCompatibleMap", "if err != nil"),
-  ("models.IndexSchema.CheckCompatibleMap", "if schema.VectorVamana == nil"),
-  ("models.IndexSchema.CheckCompatibleMap", "if len(vector) != int(schema.VectorVamana.VectorSize)"),
-  ("models.IndexSchema.CheckCompatibleMap", "if !ok"),
-  ("models.IndexSchema.CheckCompatibleMap", "typeswitch v := v.(type)"),
+  ("models.IndexSchema.CheckCompatibleMap", "if v19 != nil"),
+  ("models.IndexSchema.CheckCompatibleMap", "if v4.VectorFlat == nil"),
+  ("models.IndexSchema.CheckCompatibleMap", "if len(v18) != int(v4.VectorFlat.VectorSize)"),
+  ("models.IndexSchema.CheckCompatibleMap", "if v21 != nil"),
+  ("models.IndexSchema.CheckCompatibleMap", "if v4.VectorVamana == nil"),
+  ("models.IndexSchema.CheckCompatibleMap", "if len(v20) != int(v4.VectorVamana.VectorSize)"),
+  ("models.IndexSchema.CheckCompatibleMap", "if !v22"),
+  ("models.IndexSchema.CheckCompatibleMap", "typeswitch v23 := v8.(type)"),
   ("models.IndexSchema.CheckCompatibleMap", "case int64"),
   ("models.IndexSchema.CheckCompatibleMap", "case int"),
   ("models.IndexSchema.CheckCompatibleMap", "case int32"),
@@ -1686,90 +1686,90 @@ theorem C18_pin_skeleton : FactsC18.skeleton = [
   ("models.IndexSchema.CheckCompatibleMap", "case float32"),
   ("models.IndexSchema.CheckCompatibleMap", "case float64"),
   ("models.IndexSchema.CheckCompatibleMap", "default"),
-  ("models.IndexSchema.CheckCompatibleMap", "typeswitch v := v.(type)"),
+  ("models.IndexSchema.CheckCompatibleMap", "typeswitch v24 := v8.(type)"),
   ("models.IndexSchema.CheckCompatibleMap", "case float64"),
   ("models.IndexSchema.CheckCompatibleMap", "case float32"),
   ("models.IndexSchema.CheckCompatibleMap", "default"),
-  ("models.IndexSchema.CheckCompatibleMap", "typeswitch v := v.(type)"),
+  ("models.IndexSchema.CheckCompatibleMap", "typeswitch v25 := v8.(type)"),
   ("models.IndexSchema.CheckCompatibleMap", "case []string"),
   ("models.IndexSchema.CheckCompatibleMap", "case []any"),
   ("models.IndexSchema.CheckCompatibleMap", "default"),
-  ("models.IndexSchema.CheckCompatibleMap", "if ok"),
-  ("models.IndexVectorFlatParameters.Validate", "if p.VectorSize < 1 || p.VectorSize > 4096"),
-  ("models.IndexVectorFlatParameters.Validate", "if p.DistanceMetric != DistanceEuclidean && p.DistanceMetric != DistanceCosine && p.DistanceMetric != DistanceDot && p.DistanceMetric != DistanceHamming && p.DistanceMetric != DistanceJaccard && p.DistanceMetric != DistanceHaversine"),
-  ("models.IndexVectorFlatParameters.Validate", "if p.DistanceMetric == DistanceHaversine && p.VectorSize != 2"),
-  ("models.IndexVectorFlatParameters.Validate", "if p.Quantizer != nil"),
-  ("models.IndexVectorFlatParameters.Validate", "if err != nil"),
-  ("models.IndexVectorVamanaParameters.Validate", "if p.VectorSize < 1 || p.VectorSize > 4096"),
-  ("models.IndexVectorVamanaParameters.Validate", "if p.DistanceMetric != DistanceEuclidean && p.DistanceMetric != DistanceCosine && p.DistanceMetric != DistanceDot && p.DistanceMetric != DistanceHamming && p.DistanceMetric != DistanceJaccard && p.DistanceMetric != DistanceHaversine"),
-  ("models.IndexVectorVamanaParameters.Validate", "if p.DistanceMetric == DistanceHaversine && p.VectorSize != 2"),
-  ("models.IndexVectorVamanaParameters.Validate", "if p.SearchSize < 25 || p.SearchSize > 75"),
-  ("models.IndexVectorVamanaParameters.Validate", "if p.DegreeBound < 32 || p.DegreeBound > 64"),
-  ("models.IndexVectorVamanaParameters.Validate", "if p.Alpha < 1.1 || p.Alpha > 1.5"),
-  ("models.IndexVectorVamanaParameters.Validate", "if p.Quantizer != nil"),
-  ("models.IndexVectorVamanaParameters.Validate", "if err != nil"),
-  ("models.IndexTextParameters.Validate", "if p.Analyser != \"standard\""),
-  ("models.Quantizer.Validate", "switch q.Type"),
+  ("models.IndexSchema.CheckCompatibleMap", "if v30"),
+  ("models.IndexVectorFlatParameters.Validate", "if v1.VectorSize < 1 || v1.VectorSize > 4096"),
+  ("models.IndexVectorFlatParameters.Validate", "if v1.DistanceMetric != DistanceCosine && v1.DistanceMetric != DistanceDot && v1.DistanceMetric != DistanceEuclidean && v1.DistanceMetric != DistanceHamming && v1.DistanceMetric != DistanceHaversine && v1.DistanceMetric != DistanceJaccard"),
+  ("models.IndexVectorFlatParameters.Validate", "if v1.DistanceMetric == DistanceHaversine && v1.VectorSize != 2"),
+  ("models.IndexVectorFlatParameters.Validate", "if v1.Quantizer != nil"),
+  ("models.IndexVectorFlatParameters.Validate", "if v2 != nil"),
+  ("models.IndexVectorVamanaParameters.Validate", "if v1.VectorSize < 1 || v1.VectorSize > 4096"),
+  ("models.IndexVectorVamanaParameters.Validate", "if v1.DistanceMetric != DistanceCosine && v1.DistanceMetric != DistanceDot && v1.DistanceMetric != DistanceEuclidean && v1.DistanceMetric != DistanceHamming && v1.DistanceMetric != DistanceHaversine && v1.DistanceMetric != DistanceJaccard"),
+  ("models.IndexVectorVamanaParameters.Validate", "if v1.DistanceMetric == DistanceHaversine && v1.VectorSize != 2"),
+  ("models.IndexVectorVamanaParameters.Validate", "if v1.SearchSize < 25 || v1.SearchSize > 75"),
+  ("models.IndexVectorVamanaParameters.Validate", "if v1.DegreeBound < 32 || v1.DegreeBound > 64"),
+  ("models.IndexVectorVamanaParameters.Validate", "if v1.Alpha < 1.1 || v1.Alpha > 1.5"),
+  ("models.IndexVectorVamanaParameters.Validate", "if v1.Quantizer != nil"),
+  ("models.IndexVectorVamanaParameters.Validate", "if v2 != nil"),
+  ("models.IndexTextParameters.Validate", "if v1.Analyser != \"standard\""),
+  ("models.Quantizer.Validate", "switch v1.Type"),
   ("models.Quantizer.Validate", "case QuantizerNone"),
   ("models.Quantizer.Validate", "case QuantizerBinary"),
   ("models.Quantizer.Validate", "case QuantizerProduct"),
   ("models.Quantizer.Validate", "default"),
-  ("models.Quantizer.Validate", "if q.Binary == nil"),
-  ("models.Quantizer.Validate", "if q.Product == nil"),
-  ("models.Quantizer.ValidateFor", "if q.Type != QuantizerProduct || q.Product == nil"),
-  ("models.Quantizer.ValidateFor", "switch distanceMetric"),
+  ("models.Quantizer.Validate", "if v1.Binary == nil"),
+  ("models.Quantizer.Validate", "if v1.Product == nil"),
+  ("models.Quantizer.ValidateFor", "if v1.Type != QuantizerProduct || v1.Product == nil"),
+  ("models.Quantizer.ValidateFor", "switch v3"),
   ("models.Quantizer.ValidateFor", "case DistanceHamming, DistanceJaccard"),
   ("models.Quantizer.ValidateFor", "case DistanceEuclidean, DistanceCosine, DistanceDot"),
   ("models.Quantizer.ValidateFor", "default"),
-  ("models.Quantizer.ValidateFor", "if vectorSize%uint(q.Product.NumSubVectors) != 0"),
-  ("models.BinaryQuantizerParamaters.Validate", "if b.Threshold == nil && (b.TriggerThreshold < 0 || b.TriggerThreshold > 50000)"),
-  ("models.BinaryQuantizerParamaters.Validate", "if b.DistanceMetric != DistanceHamming && b.DistanceMetric != DistanceJaccard"),
-  ("models.ProductQuantizerParameters.Validate", "if p.NumCentroids < 2 || p.NumCentroids > 256"),
-  ("models.ProductQuantizerParameters.Validate", "if p.NumSubVectors < 2"),
-  ("models.ProductQuantizerParameters.Validate", "if p.TriggerThreshold < 1000 || p.TriggerThreshold > 10000"),
-  ("models.SearchRequest.Validate", "if err != nil"),
-  ("models.SearchRequest.Validate", "if len(r.Sort) > 10"),
-  ("models.SearchRequest.Validate", "if err != nil"),
-  ("models.SearchRequest.Validate", "if r.Offset < 0"),
-  ("models.SearchRequest.Validate", "if r.Limit < 1 || r.Limit > 100"),
-  ("models.Query.Validate", "if len(q.Property) == 0"),
-  ("models.Query.Validate", "if q.VectorFlat != nil"),
-  ("models.Query.Validate", "if err != nil"),
-  ("models.Query.Validate", "if q.VectorVamana != nil"),
-  ("models.Query.Validate", "if err != nil"),
-  ("models.Query.Validate", "if q.Text != nil"),
-  ("models.Query.Validate", "if err != nil"),
-  ("models.Query.Validate", "if q.String != nil"),
-  ("models.Query.Validate", "if err != nil"),
-  ("models.Query.Validate", "if q.Integer != nil"),
-  ("models.Query.Validate", "if err != nil"),
-  ("models.Query.Validate", "if q.Float != nil"),
-  ("models.Query.Validate", "if err != nil"),
-  ("models.Query.Validate", "if q.StringArray != nil"),
-  ("models.Query.Validate", "if err != nil"),
-  ("models.Query.Validate", "if q.Property == \"_and\" && len(q.And) == 0"),
-  ("models.Query.Validate", "if q.Property == \"_or\" && len(q.Or) == 0"),
-  ("models.Query.Validate", "if len(q.And) > 0"),
-  ("models.Query.Validate", "if err != nil"),
-  ("models.Query.Validate", "if len(q.Or) > 0"),
-  ("models.Query.Validate", "if err != nil"),
-  ("models.Query.Validate", "if q.Property == \"_id\""),
+  ("models.Quantizer.ValidateFor", "if v2%uint(v1.Product.NumSubVectors) != 0"),
+  ("models.BinaryQuantizerParamaters.Validate", "if v1.Threshold == nil && (v1.TriggerThreshold < 0 || v1.TriggerThreshold > 50000)"),
+  ("models.BinaryQuantizerParamaters.Validate", "if v1.DistanceMetric != DistanceHamming && v1.DistanceMetric != DistanceJaccard"),
+  ("models.ProductQuantizerParameters.Validate", "if v1.NumCentroids < 2 || v1.NumCentroids > 256"),
+  ("models.ProductQuantizerParameters.Validate", "if v1.NumSubVectors < 2"),
+  ("models.ProductQuantizerParameters.Validate", "if v1.TriggerThreshold < 1000 || v1.TriggerThreshold > 10000"),
+  ("models.SearchRequest.Validate", "if v2 != nil"),
+  ("models.SearchRequest.Validate", "if len(v1.Sort) > 10"),
+  ("models.SearchRequest.Validate", "if v4 != nil"),
+  ("models.SearchRequest.Validate", "if v1.Offset < 0"),
+  ("models.SearchRequest.Validate", "if v1.Limit < 1 || v1.Limit > 100"),
+  ("models.Query.Validate", "if len(v1.Property) == 0"),
+  ("models.Query.Validate", "if v1.VectorFlat != nil"),
+  ("models.Query.Validate", "if v2 != nil"),
+  ("models.Query.Validate", "if v1.VectorVamana != nil"),
+  ("models.Query.Validate", "if v3 != nil"),
+  ("models.Query.Validate", "if v1.Text != nil"),
+  ("models.Query.Validate", "if v4 != nil"),
+  ("models.Query.Validate", "if v1.String != nil"),
+  ("models.Query.Validate", "if v5 != nil"),
+  ("models.Query.Validate", "if v1.Integer != nil"),
+  ("models.Query.Validate", "if v6 != nil"),
+  ("models.Query.Validate", "if v1.Float != nil"),
+  ("models.Query.Validate", "if v7 != nil"),
+  ("models.Query.Validate", "if v1.StringArray != nil"),
+  ("models.Query.Validate", "if v8 != nil"),
+  ("models.Query.Validate", "if len(v1.And) == 0 && v1.Property == \"_and\""),
+  ("models.Query.Validate", "if len(v1.Or) == 0 && v1.Property == \"_or\""),
+  ("models.Query.Validate", "if len(v1.And) > 0"),
+  ("models.Query.Validate", "if v11 != nil"),
+  ("models.Query.Validate", "if len(v1.Or) > 0"),
+  ("models.Query.Validate", "if v14 != nil"),
+  ("models.Query.Validate", "if v1.Property == \"_id\""),
   ("models.Query.Validate", "switch "),
-  ("models.Query.Validate", "case q.String != nil"),
-  ("models.Query.Validate", "case q.StringArray != nil"),
+  ("models.Query.Validate", "case v1.String != nil"),
+  ("models.Query.Validate", "case v1.StringArray != nil"),
   ("models.Query.Validate", "default"),
-  ("models.Query.Validate", "if q.String.Operator != OperatorEquals"),
-  ("models.Query.Validate", "if err != nil"),
-  ("models.Query.Validate", "if q.StringArray.Operator != OperatorContainsAny"),
-  ("models.Query.Validate", "if err != nil"),
-  ("models.Query.ValidateSchema", "switch q.Property"),
+  ("models.Query.Validate", "if v1.String.Operator != OperatorEquals"),
+  ("models.Query.Validate", "if v15 != nil"),
+  ("models.Query.Validate", "if v1.StringArray.Operator != OperatorContainsAny"),
+  ("models.Query.Validate", "if v17 != nil"),
+  ("models.Query.ValidateSchema", "switch v1.Property"),
   ("models.Query.ValidateSchema", "case \"_and\""),
   ("models.Query.ValidateSchema", "case \"_or\""),
   ("models.Query.ValidateSchema", "case \"_id\""),
-  ("models.Query.ValidateSchema", "if err != nil"),
-  ("models.Query.ValidateSchema", "if err != nil"),
-  ("models.Query.ValidateSchema", "if !ok"),
-  ("models.Query.ValidateSchema", "switch value.Type"),
+  ("models.Query.ValidateSchema", "if v4 != nil"),
+  ("models.Query.ValidateSchema", "if v6 != nil"),
+  ("models.Query.ValidateSchema", "if !v8"),
+  ("models.Query.ValidateSchema", "switch v7.Type"),
   ("models.Query.ValidateSchema", "case IndexTypeVectorFlat"),
   ("models.Query.ValidateSchema", "case IndexTypeVectorVamana"),
   ("models.Query.ValidateSchema", "case IndexTypeText"),
@@ -1778,204 +1778,204 @@ theorem C18_pin_skeleton : FactsC18.skeleton = [
   ("models.Query.ValidateSchema", "case IndexTypeInteger"),
   ("models.Query.ValidateSchema", "case IndexTypeFloat"),
   ("models.Query.ValidateSchema", "default"),
-  ("models.Query.ValidateSchema", "if q.VectorFlat == nil"),
-  ("models.Query.ValidateSchema", "if len(q.VectorFlat.Vector) != int(value.VectorFlat.VectorSize)"),
-  ("models.Query.ValidateSchema", "if q.VectorFlat.Filter != nil"),
-  ("models.Query.ValidateSchema", "if err != nil"),
-  ("models.Query.ValidateSchema", "if q.VectorVamana == nil"),
-  ("models.Query.ValidateSchema", "if len(q.VectorVamana.Vector) != int(value.VectorVamana.VectorSize)"),
-  ("models.Query.ValidateSchema", "if q.VectorVamana.Filter != nil"),
-  ("models.Query.ValidateSchema", "if err != nil"),
-  ("models.Query.ValidateSchema", "if q.Text == nil"),
-  ("models.Query.ValidateSchema", "if q.Text.Filter != nil"),
-  ("models.Query.ValidateSchema", "if err != nil"),
-  ("models.Query.ValidateSchema", "if q.String == nil"),
-  ("models.Query.ValidateSchema", "if q.StringArray == nil"),
-  ("models.Query.ValidateSchema", "if q.Integer == nil"),
-  ("models.Query.ValidateSchema", "if q.Float == nil"),
-  ("models.SortOption.Validate", "if len(s.Property) == 0"),
-  ("models.SearchVectorVamanaOptions.Validate", "if len(o.Vector) < 1 || len(o.Vector) > 4096"),
-  ("models.SearchVectorVamanaOptions.Validate", "if o.Operator != OperatorNear"),
-  ("models.SearchVectorVamanaOptions.Validate", "if o.SearchSize < 25 || o.SearchSize > 75"),
-  ("models.SearchVectorVamanaOptions.Validate", "if o.Limit < 1 || o.Limit > 75"),
-  ("models.SearchVectorVamanaOptions.Validate", "if o.SearchSize < o.Limit"),
-  ("models.SearchVectorVamanaOptions.Validate", "if o.Filter != nil"),
-  ("models.SearchVectorVamanaOptions.Validate", "if err != nil"),
-  ("models.SearchVectorFlatOptions.Validate", "if len(o.Vector) < 1 || len(o.Vector) > 4096"),
-  ("models.SearchVectorFlatOptions.Validate", "if o.Operator != OperatorNear"),
-  ("models.SearchVectorFlatOptions.Validate", "if o.Limit < 1 || o.Limit > 75"),
-  ("models.SearchVectorFlatOptions.Validate", "if o.Filter != nil"),
-  ("models.SearchVectorFlatOptions.Validate", "if err != nil"),
-  ("models.SearchTextOptions.Validate", "if len(o.Value) == 0"),
-  ("models.SearchTextOptions.Validate", "switch o.Operator"),
+  ("models.Query.ValidateSchema", "if v1.VectorFlat == nil"),
+  ("models.Query.ValidateSchema", "if len(v1.VectorFlat.Vector) != int(v7.VectorFlat.VectorSize)"),
+  ("models.Query.ValidateSchema", "if v1.VectorFlat.Filter != nil"),
+  ("models.Query.ValidateSchema", "if v9 != nil"),
+  ("models.Query.ValidateSchema", "if v1.VectorVamana == nil"),
+  ("models.Query.ValidateSchema", "if len(v1.VectorVamana.Vector) != int(v7.VectorVamana.VectorSize)"),
+  ("models.Query.ValidateSchema", "if v1.VectorVamana.Filter != nil"),
+  ("models.Query.ValidateSchema", "if v10 != nil"),
+  ("models.Query.ValidateSchema", "if v1.Text == nil"),
+  ("models.Query.ValidateSchema", "if v1.Text.Filter != nil"),
+  ("models.Query.ValidateSchema", "if v11 != nil"),
+  ("models.Query.ValidateSchema", "if v1.String == nil"),
+  ("models.Query.ValidateSchema", "if v1.StringArray == nil"),
+  ("models.Query.ValidateSchema", "if v1.Integer == nil"),
+  ("models.Query.ValidateSchema", "if v1.Float == nil"),
+  ("models.SortOption.Validate", "if len(v1.Property) == 0"),
+  ("models.SearchVectorVamanaOptions.Validate", "if len(v1.Vector) < 1 || len(v1.Vector) > 4096"),
+  ("models.SearchVectorVamanaOptions.Validate", "if v1.Operator != OperatorNear"),
+  ("models.SearchVectorVamanaOptions.Validate", "if v1.SearchSize < 25 || v1.SearchSize > 75"),
+  ("models.SearchVectorVamanaOptions.Validate", "if v1.Limit < 1 || v1.Limit > 75"),
+  ("models.SearchVectorVamanaOptions.Validate", "if v1.SearchSize < v1.Limit"),
+  ("models.SearchVectorVamanaOptions.Validate", "if v1.Filter != nil"),
+  ("models.SearchVectorVamanaOptions.Validate", "if v2 != nil"),
+  ("models.SearchVectorFlatOptions.Validate", "if len(v1.Vector) < 1 || len(v1.Vector) > 4096"),
+  ("models.SearchVectorFlatOptions.Validate", "if v1.Operator != OperatorNear"),
+  ("models.SearchVectorFlatOptions.Validate", "if v1.Limit < 1 || v1.Limit > 75"),
+  ("models.SearchVectorFlatOptions.Validate", "if v1.Filter != nil"),
+  ("models.SearchVectorFlatOptions.Validate", "if v2 != nil"),
+  ("models.SearchTextOptions.Validate", "if len(v1.Value) == 0"),
+  ("models.SearchTextOptions.Validate", "switch v1.Operator"),
   ("models.SearchTextOptions.Validate", "case OperatorContainsAll"),
   ("models.SearchTextOptions.Validate", "case OperatorContainsAny"),
   ("models.SearchTextOptions.Validate", "default"),
-  ("models.SearchTextOptions.Validate", "if o.Limit < 1 || o.Limit > 75"),
-  ("models.SearchTextOptions.Validate", "if o.Filter != nil"),
-  ("models.SearchTextOptions.Validate", "if err != nil"),
-  ("models.SearchStringOptions.Validate", "if len(o.Value) == 0"),
-  ("models.SearchStringOptions.Validate", "switch o.Operator"),
+  ("models.SearchTextOptions.Validate", "if v1.Limit < 1 || v1.Limit > 75"),
+  ("models.SearchTextOptions.Validate", "if v1.Filter != nil"),
+  ("models.SearchTextOptions.Validate", "if v2 != nil"),
+  ("models.SearchStringOptions.Validate", "if len(v1.Value) == 0"),
+  ("models.SearchStringOptions.Validate", "switch v1.Operator"),
   ("models.SearchStringOptions.Validate", "case OperatorEquals, OperatorNotEquals, OperatorStartsWith"),
   ("models.SearchStringOptions.Validate", "case OperatorGreaterThan, OperatorGreaterOrEq"),
   ("models.SearchStringOptions.Validate", "case OperatorLessThan, OperatorLessOrEq"),
   ("models.SearchStringOptions.Validate", "case OperatorInRange"),
   ("models.SearchStringOptions.Validate", "default"),
-  ("models.SearchStringOptions.Validate", "if o.EndValue <= o.Value"),
-  ("models.SearchIntegerOptions.Validate", "switch o.Operator"),
+  ("models.SearchStringOptions.Validate", "if v1.EndValue <= v1.Value"),
+  ("models.SearchIntegerOptions.Validate", "switch v1.Operator"),
   ("models.SearchIntegerOptions.Validate", "case OperatorEquals, OperatorNotEquals"),
   ("models.SearchIntegerOptions.Validate", "case OperatorGreaterThan, OperatorGreaterOrEq"),
   ("models.SearchIntegerOptions.Validate", "case OperatorLessThan, OperatorLessOrEq"),
   ("models.SearchIntegerOptions.Validate", "case OperatorInRange"),
   ("models.SearchIntegerOptions.Validate", "default"),
-  ("models.SearchIntegerOptions.Validate", "if o.EndValue <= o.Value"),
-  ("models.SearchFloatOptions.Validate", "switch o.Operator"),
+  ("models.SearchIntegerOptions.Validate", "if v1.EndValue <= v1.Value"),
+  ("models.SearchFloatOptions.Validate", "switch v1.Operator"),
   ("models.SearchFloatOptions.Validate", "case OperatorEquals, OperatorNotEquals"),
   ("models.SearchFloatOptions.Validate", "case OperatorGreaterThan, OperatorGreaterOrEq"),
   ("models.SearchFloatOptions.Validate", "case OperatorLessThan, OperatorLessOrEq"),
   ("models.SearchFloatOptions.Validate", "case OperatorInRange"),
   ("models.SearchFloatOptions.Validate", "default"),
-  ("models.SearchFloatOptions.Validate", "if o.EndValue <= o.Value"),
-  ("models.SearchStringArrayOptions.Validate", "if len(o.Value) == 0"),
-  ("models.SearchStringArrayOptions.Validate", "switch o.Operator"),
+  ("models.SearchFloatOptions.Validate", "if v1.EndValue <= v1.Value"),
+  ("models.SearchStringArrayOptions.Validate", "if len(v1.Value) == 0"),
+  ("models.SearchStringArrayOptions.Validate", "switch v1.Operator"),
   ("models.SearchStringArrayOptions.Validate", "case OperatorContainsAll"),
   ("models.SearchStringArrayOptions.Validate", "case OperatorContainsAny"),
   ("models.SearchStringArrayOptions.Validate", "default"),
-  ("models.PointAsMap.ExtractIdField", "if !ok"),
-  ("models.PointAsMap.ExtractIdField", "if createNew"),
-  ("models.PointAsMap.ExtractIdField", "if !ok"),
-  ("models.PointAsMap.ExtractIdField", "if err != nil"),
-  ("v2.CreateCollectionRequest.Validate", "if len(req.Id) < 3 || len(req.Id) > 24"),
-  ("v2.CreateCollectionRequest.Validate", "if !((r >= 'a' && r <= 'z') || (r >= '0' && r <= '9'))"),
-  ("v2.SemaDBHandlers.HandleCreateCollection", "if err != nil"),
-  ("v2.SemaDBHandlers.HandleCreateCollection", "switch err"),
+  ("models.PointAsMap.ExtractIdField", "if !v4"),
+  ("models.PointAsMap.ExtractIdField", "if v2"),
+  ("models.PointAsMap.ExtractIdField", "if !v4"),
+  ("models.PointAsMap.ExtractIdField", "if v7 != nil"),
+  ("v2.CreateCollectionRequest.Validate", "if len(v1.Id) < 3 || len(v1.Id) > 24"),
+  ("v2.CreateCollectionRequest.Validate", "if !((v2 <= '9' && v2 >= '0') || (v2 <= 'z' && v2 >= 'a'))"),
+  ("v2.SemaDBHandlers.HandleCreateCollection", "if v5 != nil"),
+  ("v2.SemaDBHandlers.HandleCreateCollection", "switch v9"),
   ("v2.SemaDBHandlers.HandleCreateCollection", "case nil"),
   ("v2.SemaDBHandlers.HandleCreateCollection", "case cluster.ErrQuotaReached"),
   ("v2.SemaDBHandlers.HandleCreateCollection", "case cluster.ErrExists"),
   ("v2.SemaDBHandlers.HandleCreateCollection", "default"),
-  ("v2.SemaDBHandlers.HandleListCollections", "if err != nil"),
-  ("v2.SemaDBHandlers.CollectionURIMiddleware", "if len(collectionId) < 3 || len(collectionId) > 24"),
-  ("v2.SemaDBHandlers.CollectionURIMiddleware", "if err == cluster.ErrNotFound"),
-  ("v2.SemaDBHandlers.CollectionURIMiddleware", "if err != nil"),
-  ("v2.SemaDBHandlers.HandleGetCollection", "if errors.Is(err, cluster.ErrShardUnavailable)"),
-  ("v2.SemaDBHandlers.HandleGetCollection", "if err != nil"),
-  ("v2.SemaDBHandlers.HandleDeleteCollection", "if err != nil"),
-  ("v2.SemaDBHandlers.HandleDeleteCollection", "if len(deletedShardIds) != len(collection.ShardIds)"),
-  ("v2.InsertPointsRequest.Validate", "if len(req.Points) < 1 || len(req.Points) > 10000"),
-  ("v2.SemaDBHandlers.HandleInsertPoints", "if err != nil"),
-  ("v2.SemaDBHandlers.HandleInsertPoints", "if err != nil"),
-  ("v2.SemaDBHandlers.HandleInsertPoints", "if err != nil"),
-  ("v2.SemaDBHandlers.HandleInsertPoints", "if err != nil"),
-  ("v2.SemaDBHandlers.HandleInsertPoints", "if len(pointData) > collection.UserPlan.MaxPointSize"),
-  ("v2.SemaDBHandlers.HandleInsertPoints", "if errors.Is(err, cluster.ErrQuotaReached)"),
-  ("v2.SemaDBHandlers.HandleInsertPoints", "if errors.Is(err, cluster.ErrShardUnavailable)"),
-  ("v2.SemaDBHandlers.HandleInsertPoints", "if err != nil"),
-  ("v2.SemaDBHandlers.HandleInsertPoints", "if len(failedRanges) > 0"),
-  ("v2.UpdatePointsRequest.Validate", "if len(req.Points) < 1 || len(req.Points) > 100"),
-  ("v2.SemaDBHandlers.HandleUpdatePoints", "if err != nil"),
-  ("v2.SemaDBHandlers.HandleUpdatePoints", "if err != nil"),
-  ("v2.SemaDBHandlers.HandleUpdatePoints", "if err != nil"),
-  ("v2.SemaDBHandlers.HandleUpdatePoints", "if err != nil"),
-  ("v2.SemaDBHandlers.HandleUpdatePoints", "if len(pointData) > collection.UserPlan.MaxPointSize"),
-  ("v2.SemaDBHandlers.HandleUpdatePoints", "if err != nil"),
-  ("v2.SemaDBHandlers.HandleUpdatePoints", "if len(failedPoints) > 0"),
-  ("v2.DeletePointsRequest.Validate", "if len(req.Ids) < 1 || len(req.Ids) > 100"),
-  ("v2.DeletePointsRequest.Validate", "if err != nil"),
-  ("v2.SemaDBHandlers.HandleDeletePoints", "if err != nil"),
-  ("v2.SemaDBHandlers.HandleDeletePoints", "if err != nil"),
-  ("v2.SemaDBHandlers.HandleDeletePoints", "if len(failedPoints) > 0"),
-  ("v2.SemaDBHandlers.HandleSearchPoints", "if err != nil"),
-  ("v2.SemaDBHandlers.HandleSearchPoints", "if req.Limit == 0"),
-  ("v2.SemaDBHandlers.HandleSearchPoints", "if err != nil"),
-  ("v2.SemaDBHandlers.HandleSearchPoints", "if err != nil"),
-  ("v2.SemaDBHandlers.HandleSearchPoints", "if sp.DecodedData == nil"),
-  ("v2.SemaDBHandlers.HandleSearchPoints", "if len(sp.Point.Data) > 0"),
-  ("v2.SemaDBHandlers.HandleSearchPoints", "if err != nil"),
-  ("v2.SemaDBHandlers.HandleSearchPoints", "if sp.Distance != nil"),
-  ("v2.SemaDBHandlers.HandleSearchPoints", "if sp.Score != nil"),
-  ("v1.CreateCollectionRequest.Validate", "if len(req.Id) < 3 || len(req.Id) > 16"),
-  ("v1.CreateCollectionRequest.Validate", "if !((r >= 'a' && r <= 'z') || (r >= 'A' && r <= 'Z') || (r >= '0' && r <= '9'))"),
-  ("v1.CreateCollectionRequest.Validate", "if req.VectorSize < 1 || req.VectorSize > 4096"),
-  ("v1.CreateCollectionRequest.Validate", "if req.DistanceMetric != models.DistanceEuclidean && req.DistanceMetric != models.DistanceCosine && req.DistanceMetric != models.DistanceDot"),
-  ("v1.SemaDBHandlers.HandleCreateCollection", "if err != nil"),
-  ("v1.SemaDBHandlers.HandleCreateCollection", "switch err"),
+  ("v2.SemaDBHandlers.HandleListCollections", "if v6 != nil"),
+  ("v2.SemaDBHandlers.CollectionURIMiddleware", "if len(a3) < 3 || len(a3) > 24"),
+  ("v2.SemaDBHandlers.CollectionURIMiddleware", "if a6 == cluster.ErrNotFound"),
+  ("v2.SemaDBHandlers.CollectionURIMiddleware", "if a6 != nil"),
+  ("v2.SemaDBHandlers.HandleGetCollection", "if errors.Is(v6, cluster.ErrShardUnavailable)"),
+  ("v2.SemaDBHandlers.HandleGetCollection", "if v6 != nil"),
+  ("v2.SemaDBHandlers.HandleDeleteCollection", "if v6 != nil"),
+  ("v2.SemaDBHandlers.HandleDeleteCollection", "if len(v5) != len(v4.ShardIds)"),
+  ("v2.InsertPointsRequest.Validate", "if len(v1.Points) < 1 || len(v1.Points) > 10000"),
+  ("v2.SemaDBHandlers.HandleInsertPoints", "if v6 != nil"),
+  ("v2.SemaDBHandlers.HandleInsertPoints", "if v11 != nil"),
+  ("v2.SemaDBHandlers.HandleInsertPoints", "if v13 != nil"),
+  ("v2.SemaDBHandlers.HandleInsertPoints", "if v13 != nil"),
+  ("v2.SemaDBHandlers.HandleInsertPoints", "if len(v15) > v7.UserPlan.MaxPointSize"),
+  ("v2.SemaDBHandlers.HandleInsertPoints", "if errors.Is(v6, cluster.ErrQuotaReached)"),
+  ("v2.SemaDBHandlers.HandleInsertPoints", "if errors.Is(v6, cluster.ErrShardUnavailable)"),
+  ("v2.SemaDBHandlers.HandleInsertPoints", "if v6 != nil"),
+  ("v2.SemaDBHandlers.HandleInsertPoints", "if len(v18) > 0"),
+  ("v2.UpdatePointsRequest.Validate", "if len(v1.Points) < 1 || len(v1.Points) > 100"),
+  ("v2.SemaDBHandlers.HandleUpdatePoints", "if v5 != nil"),
+  ("v2.SemaDBHandlers.HandleUpdatePoints", "if v11 != nil"),
+  ("v2.SemaDBHandlers.HandleUpdatePoints", "if v13 != nil"),
+  ("v2.SemaDBHandlers.HandleUpdatePoints", "if v11 != nil"),
+  ("v2.SemaDBHandlers.HandleUpdatePoints", "if len(v14) > v6.UserPlan.MaxPointSize"),
+  ("v2.SemaDBHandlers.HandleUpdatePoints", "if v5 != nil"),
+  ("v2.SemaDBHandlers.HandleUpdatePoints", "if len(v17) > 0"),
+  ("v2.DeletePointsRequest.Validate", "if len(v1.Ids) < 1 || len(v1.Ids) > 100"),
+  ("v2.DeletePointsRequest.Validate", "if v4 != nil"),
+  ("v2.SemaDBHandlers.HandleDeletePoints", "if v5 != nil"),
+  ("v2.SemaDBHandlers.HandleDeletePoints", "if v5 != nil"),
+  ("v2.SemaDBHandlers.HandleDeletePoints", "if len(v10) > 0"),
+  ("v2.SemaDBHandlers.HandleSearchPoints", "if v5 != nil"),
+  ("v2.SemaDBHandlers.HandleSearchPoints", "if v4.Limit == 0"),
+  ("v2.SemaDBHandlers.HandleSearchPoints", "if v7 != nil"),
+  ("v2.SemaDBHandlers.HandleSearchPoints", "if v5 != nil"),
+  ("v2.SemaDBHandlers.HandleSearchPoints", "if v11.DecodedData == nil"),
+  ("v2.SemaDBHandlers.HandleSearchPoints", "if len(v11.Point.Data) > 0"),
+  ("v2.SemaDBHandlers.HandleSearchPoints", "if v13 != nil"),
+  ("v2.SemaDBHandlers.HandleSearchPoints", "if v11.Distance != nil"),
+  ("v2.SemaDBHandlers.HandleSearchPoints", "if v11.Score != nil"),
+  ("v1.CreateCollectionRequest.Validate", "if len(v1.Id) < 3 || len(v1.Id) > 16"),
+  ("v1.CreateCollectionRequest.Validate", "if !((v2 <= '9' && v2 >= '0') || (v2 <= 'Z' && v2 >= 'A') || (v2 <= 'z' && v2 >= 'a'))"),
+  ("v1.CreateCollectionRequest.Validate", "if v1.VectorSize < 1 || v1.VectorSize > 4096"),
+  ("v1.CreateCollectionRequest.Validate", "if v1.DistanceMetric != models.DistanceCosine && v1.DistanceMetric != models.DistanceDot && v1.DistanceMetric != models.DistanceEuclidean"),
+  ("v1.SemaDBHandlers.HandleCreateCollection", "if v5 != nil"),
+  ("v1.SemaDBHandlers.HandleCreateCollection", "switch v9"),
   ("v1.SemaDBHandlers.HandleCreateCollection", "case nil"),
   ("v1.SemaDBHandlers.HandleCreateCollection", "case cluster.ErrQuotaReached"),
   ("v1.SemaDBHandlers.HandleCreateCollection", "case cluster.ErrExists"),
   ("v1.SemaDBHandlers.HandleCreateCollection", "default"),
-  ("v1.SemaDBHandlers.HandleListCollections", "if err != nil"),
-  ("v1.SemaDBHandlers.HandleListCollections", "if !isV1Collection(col)"),
-  ("v1.SemaDBHandlers.CollectionURIMiddleware", "if len(collectionId) < 3 || len(collectionId) > 16"),
-  ("v1.SemaDBHandlers.CollectionURIMiddleware", "if err == cluster.ErrNotFound"),
-  ("v1.SemaDBHandlers.CollectionURIMiddleware", "if err != nil"),
-  ("v1.SemaDBHandlers.CollectionURIMiddleware", "if !isV1Collection(collection)"),
-  ("v1.SemaDBHandlers.HandleGetCollection", "if errors.Is(err, cluster.ErrShardUnavailable)"),
-  ("v1.SemaDBHandlers.HandleGetCollection", "if err != nil"),
-  ("v1.SemaDBHandlers.HandleDeleteCollection", "if err != nil"),
-  ("v1.SemaDBHandlers.HandleDeleteCollection", "if len(deletedShardIds) != len(collection.ShardIds)"),
-  ("v1.InsertSinglePointRequest.Validate", "if len(req.Id) > 0"),
-  ("v1.InsertSinglePointRequest.Validate", "if err != nil"),
-  ("v1.InsertSinglePointRequest.Validate", "if len(req.Vector) < 1 || len(req.Vector) > 2000"),
-  ("v1.InsertPointsRequest.Validate", "if len(req.Points) < 1 || len(req.Points) > 10000"),
-  ("v1.InsertPointsRequest.Validate", "if err != nil"),
-  ("v1.SemaDBHandlers.HandleInsertPoints", "if err != nil"),
-  ("v1.SemaDBHandlers.HandleInsertPoints", "if len(point.Vector) != int(collection.IndexSchema[\"vector\"].VectorVamana.VectorSize)"),
-  ("v1.SemaDBHandlers.HandleInsertPoints", "if len(point.Id) > 0"),
-  ("v1.SemaDBHandlers.HandleInsertPoints", "if err != nil"),
-  ("v1.SemaDBHandlers.HandleInsertPoints", "if err != nil"),
-  ("v1.SemaDBHandlers.HandleInsertPoints", "if len(binaryPointData) > collection.UserPlan.MaxPointSize"),
-  ("v1.SemaDBHandlers.HandleInsertPoints", "if errors.Is(err, cluster.ErrQuotaReached)"),
-  ("v1.SemaDBHandlers.HandleInsertPoints", "if errors.Is(err, cluster.ErrShardUnavailable)"),
-  ("v1.SemaDBHandlers.HandleInsertPoints", "if err != nil"),
-  ("v1.SemaDBHandlers.HandleInsertPoints", "if len(failedRanges) > 0"),
-  ("v1.UpdateSinglePointRequest.Validate", "if err != nil"),
-  ("v1.UpdateSinglePointRequest.Validate", "if len(req.Vector) < 1 || len(req.Vector) > 2000"),
-  ("v1.UpdatePointsRequest.Validate", "if len(req.Points) < 1 || len(req.Points) > 100"),
-  ("v1.UpdatePointsRequest.Validate", "if err != nil"),
-  ("v1.SemaDBHandlers.HandleUpdatePoints", "if err != nil"),
-  ("v1.SemaDBHandlers.HandleUpdatePoints", "if len(point.Vector) != int(collection.IndexSchema[\"vector\"].VectorVamana.VectorSize)"),
-  ("v1.SemaDBHandlers.HandleUpdatePoints", "if err != nil"),
-  ("v1.SemaDBHandlers.HandleUpdatePoints", "if err != nil"),
-  ("v1.SemaDBHandlers.HandleUpdatePoints", "if len(binaryPointData) > collection.UserPlan.MaxPointSize"),
-  ("v1.SemaDBHandlers.HandleUpdatePoints", "if err != nil"),
-  ("v1.SemaDBHandlers.HandleUpdatePoints", "if len(failedPoints) > 0"),
-  ("v1.DeletePointsRequest.Validate", "if len(req.Ids) < 1 || len(req.Ids) > 100"),
-  ("v1.DeletePointsRequest.Validate", "if err != nil"),
-  ("v1.SemaDBHandlers.HandleDeletePoints", "if err != nil"),
-  ("v1.SemaDBHandlers.HandleDeletePoints", "if err != nil"),
-  ("v1.SemaDBHandlers.HandleDeletePoints", "if len(failedPoints) > 0"),
-  ("v1.SearchPointsRequest.Validate", "if len(req.Vector) < 1 || len(req.Vector) > 2000"),
-  ("v1.SearchPointsRequest.Validate", "if req.Limit < 0 || req.Limit > 75"),
-  ("v1.SemaDBHandlers.HandleSearchPoints", "if err != nil"),
-  ("v1.SemaDBHandlers.HandleSearchPoints", "if req.Limit == 0"),
-  ("v1.SemaDBHandlers.HandleSearchPoints", "if len(req.Vector) != int(collection.IndexSchema[\"vector\"].VectorVamana.VectorSize)"),
-  ("v1.SemaDBHandlers.HandleSearchPoints", "if err != nil"),
-  ("v1.SemaDBHandlers.HandleSearchPoints", "if sp.Distance != nil"),
-  ("utils.DecodeValid", "if rec != nil"),
-  ("utils.DecodeValid", "switch ctype"),
+  ("v1.SemaDBHandlers.HandleListCollections", "if v6 != nil"),
+  ("v1.SemaDBHandlers.HandleListCollections", "if !isV1Collection(v8)"),
+  ("v1.SemaDBHandlers.CollectionURIMiddleware", "if len(a3) < 3 || len(a3) > 16"),
+  ("v1.SemaDBHandlers.CollectionURIMiddleware", "if a6 == cluster.ErrNotFound"),
+  ("v1.SemaDBHandlers.CollectionURIMiddleware", "if a6 != nil"),
+  ("v1.SemaDBHandlers.CollectionURIMiddleware", "if !isV1Collection(a5)"),
+  ("v1.SemaDBHandlers.HandleGetCollection", "if errors.Is(v6, cluster.ErrShardUnavailable)"),
+  ("v1.SemaDBHandlers.HandleGetCollection", "if v6 != nil"),
+  ("v1.SemaDBHandlers.HandleDeleteCollection", "if v6 != nil"),
+  ("v1.SemaDBHandlers.HandleDeleteCollection", "if len(v5) != len(v4.ShardIds)"),
+  ("v1.InsertSinglePointRequest.Validate", "if len(v1.Id) > 0"),
+  ("v1.InsertSinglePointRequest.Validate", "if v2 != nil"),
+  ("v1.InsertSinglePointRequest.Validate", "if len(v1.Vector) < 1 || len(v1.Vector) > 2000"),
+  ("v1.InsertPointsRequest.Validate", "if len(v1.Points) < 1 || len(v1.Points) > 10000"),
+  ("v1.InsertPointsRequest.Validate", "if v4 != nil"),
+  ("v1.SemaDBHandlers.HandleInsertPoints", "if v6 != nil"),
+  ("v1.SemaDBHandlers.HandleInsertPoints", "if len(v10.Vector) != int(v7.IndexSchema[\"vector\"].VectorVamana.VectorSize)"),
+  ("v1.SemaDBHandlers.HandleInsertPoints", "if len(v10.Id) > 0"),
+  ("v1.SemaDBHandlers.HandleInsertPoints", "if v14 != nil"),
+  ("v1.SemaDBHandlers.HandleInsertPoints", "if v16 != nil"),
+  ("v1.SemaDBHandlers.HandleInsertPoints", "if len(v15) > v7.UserPlan.MaxPointSize"),
+  ("v1.SemaDBHandlers.HandleInsertPoints", "if errors.Is(v6, cluster.ErrQuotaReached)"),
+  ("v1.SemaDBHandlers.HandleInsertPoints", "if errors.Is(v6, cluster.ErrShardUnavailable)"),
+  ("v1.SemaDBHandlers.HandleInsertPoints", "if v6 != nil"),
+  ("v1.SemaDBHandlers.HandleInsertPoints", "if len(v19) > 0"),
+  ("v1.UpdateSinglePointRequest.Validate", "if v2 != nil"),
+  ("v1.UpdateSinglePointRequest.Validate", "if len(v1.Vector) < 1 || len(v1.Vector) > 2000"),
+  ("v1.UpdatePointsRequest.Validate", "if len(v1.Points) < 1 || len(v1.Points) > 100"),
+  ("v1.UpdatePointsRequest.Validate", "if v4 != nil"),
+  ("v1.SemaDBHandlers.HandleUpdatePoints", "if v5 != nil"),
+  ("v1.SemaDBHandlers.HandleUpdatePoints", "if len(v9.Vector) != int(v6.IndexSchema[\"vector\"].VectorVamana.VectorSize)"),
+  ("v1.SemaDBHandlers.HandleUpdatePoints", "if v12 != nil"),
+  ("v1.SemaDBHandlers.HandleUpdatePoints", "if v14 != nil"),
+  ("v1.SemaDBHandlers.HandleUpdatePoints", "if len(v13) > v6.UserPlan.MaxPointSize"),
+  ("v1.SemaDBHandlers.HandleUpdatePoints", "if v5 != nil"),
+  ("v1.SemaDBHandlers.HandleUpdatePoints", "if len(v17) > 0"),
+  ("v1.DeletePointsRequest.Validate", "if len(v1.Ids) < 1 || len(v1.Ids) > 100"),
+  ("v1.DeletePointsRequest.Validate", "if v4 != nil"),
+  ("v1.SemaDBHandlers.HandleDeletePoints", "if v5 != nil"),
+  ("v1.SemaDBHandlers.HandleDeletePoints", "if v5 != nil"),
+  ("v1.SemaDBHandlers.HandleDeletePoints", "if len(v10) > 0"),
+  ("v1.SearchPointsRequest.Validate", "if len(v1.Vector) < 1 || len(v1.Vector) > 2000"),
+  ("v1.SearchPointsRequest.Validate", "if v1.Limit < 0 || v1.Limit > 75"),
+  ("v1.SemaDBHandlers.HandleSearchPoints", "if v5 != nil"),
+  ("v1.SemaDBHandlers.HandleSearchPoints", "if v4.Limit == 0"),
+  ("v1.SemaDBHandlers.HandleSearchPoints", "if len(v4.Vector) != int(v6.IndexSchema[\"vector\"].VectorVamana.VectorSize)"),
+  ("v1.SemaDBHandlers.HandleSearchPoints", "if v5 != nil"),
+  ("v1.SemaDBHandlers.HandleSearchPoints", "if v12.Distance != nil"),
+  ("utils.DecodeValid", "if a1 != nil"),
+  ("utils.DecodeValid", "switch v5"),
   ("utils.DecodeValid", "case \"application/json\""),
   ("utils.DecodeValid", "case \"application/msgpack\""),
   ("utils.DecodeValid", "default"),
-  ("utils.DecodeValid", "if err != nil"),
-  ("utils.DecodeValid", "if err != nil"),
-  ("utils.DecodeValid", "if err != nil"),
-  ("utils.DecodeValid", "if err != nil"),
-  ("utils.DecodeValid", "if err != nil"),
-  ("middleware.AppHeaderMiddleware", "if appHeaders.UserId == \"\" || appHeaders.PlanId == \"\""),
-  ("middleware.AppHeaderMiddleware", "if appHeaders.UserId == \".\" || appHeaders.UserId == \"..\" || strings.ContainsAny(appHeaders.UserId, `/\\`)"),
-  ("middleware.AppHeaderMiddleware", "if !ok"),
-  ("cluster.ClusterNode.InsertPoints", "if err != nil"),
-  ("cluster.ClusterNode.InsertPoints", "if totalPoints+int64(len(points)) > col.UserPlan.MaxCollectionPointCount"),
-  ("cluster.ClusterNode.InsertPoints", "if err != nil"),
-  ("cluster.ClusterNode.InsertPoints", "if err != nil"),
-  ("cluster.ClusterNode.InsertPoints", "if err != nil"),
-  ("index.indexManager.Search", "switch q.Property"),
+  ("utils.DecodeValid", "if v6 != nil"),
+  ("utils.DecodeValid", "if v8 != nil"),
+  ("utils.DecodeValid", "if v9 != nil"),
+  ("utils.DecodeValid", "if v11 != nil"),
+  ("utils.DecodeValid", "if v12 != nil"),
+  ("middleware.AppHeaderMiddleware", "if a3.PlanId == \"\" || a3.UserId == \"\""),
+  ("middleware.AppHeaderMiddleware", "if a3.UserId == \".\" || a3.UserId == \"..\" || strings.ContainsAny(a3.UserId, `/\\`)"),
+  ("middleware.AppHeaderMiddleware", "if !a6"),
+  ("cluster.ClusterNode.InsertPoints", "if v5 != nil"),
+  ("cluster.ClusterNode.InsertPoints", "if v6+int64(len(v3)) > v2.UserPlan.MaxCollectionPointCount"),
+  ("cluster.ClusterNode.InsertPoints", "if a3 != nil"),
+  ("cluster.ClusterNode.InsertPoints", "if v5 != nil"),
+  ("cluster.ClusterNode.InsertPoints", "if a7 != nil"),
+  ("index.indexManager.Search", "switch v3.Property"),
   ("index.indexManager.Search", "case \"_and\""),
   ("index.indexManager.Search", "case \"_or\""),
   ("index.indexManager.Search", "case \"_id\""),
-  ("index.indexManager.Search", "if !ok"),
-  ("index.indexManager.Search", "if err != nil"),
-  ("index.indexManager.Search", "switch itype"),
+  ("index.indexManager.Search", "if !v5"),
+  ("index.indexManager.Search", "if v9 != nil"),
+  ("index.indexManager.Search", "switch v6"),
   ("index.indexManager.Search", "case models.IndexTypeVectorVamana"),
   ("index.indexManager.Search", "case models.IndexTypeVectorFlat"),
   ("index.indexManager.Search", "case models.IndexTypeText"),
@@ -1984,40 +1984,40 @@ theorem C18_pin_skeleton : FactsC18.skeleton = [
   ("index.indexManager.Search", "case models.IndexTypeInteger"),
   ("index.indexManager.Search", "case models.IndexTypeFloat"),
   ("index.indexManager.Search", "default"),
-  ("index.indexManager.Search", "if q.VectorVamana == nil"),
-  ("index.indexManager.Search", "if q.VectorVamana.Filter != nil"),
-  ("index.indexManager.Search", "if err != nil"),
-  ("index.indexManager.Search", "if err != nil"),
-  ("index.indexManager.Search", "if err != nil"),
-  ("index.indexManager.Search", "if q.VectorFlat == nil"),
-  ("index.indexManager.Search", "if q.VectorFlat.Filter != nil"),
-  ("index.indexManager.Search", "if err != nil"),
-  ("index.indexManager.Search", "if err != nil"),
-  ("index.indexManager.Search", "if err != nil"),
-  ("index.indexManager.Search", "if q.Text == nil"),
-  ("index.indexManager.Search", "if q.Text.Filter != nil"),
-  ("index.indexManager.Search", "if err != nil"),
-  ("index.indexManager.Search", "if err != nil"),
-  ("index.indexManager.Search", "if q.String == nil"),
-  ("index.indexManager.Search", "if q.StringArray == nil"),
-  ("index.indexManager.Search", "if q.Integer == nil"),
-  ("index.indexManager.Search", "if q.Float == nil"),
-  ("index.indexManager.searchById", "if err != nil"),
+  ("index.indexManager.Search", "if v3.VectorVamana == nil"),
+  ("index.indexManager.Search", "if v3.VectorVamana.Filter != nil"),
+  ("index.indexManager.Search", "if v9 != nil"),
+  ("index.indexManager.Search", "if a5 != nil"),
+  ("index.indexManager.Search", "if v15 != nil"),
+  ("index.indexManager.Search", "if v3.VectorFlat == nil"),
+  ("index.indexManager.Search", "if v3.VectorFlat.Filter != nil"),
+  ("index.indexManager.Search", "if v9 != nil"),
+  ("index.indexManager.Search", "if a5 != nil"),
+  ("index.indexManager.Search", "if v20 != nil"),
+  ("index.indexManager.Search", "if v3.Text == nil"),
+  ("index.indexManager.Search", "if v3.Text.Filter != nil"),
+  ("index.indexManager.Search", "if v9 != nil"),
+  ("index.indexManager.Search", "if v23 != nil"),
+  ("index.indexManager.Search", "if v3.String == nil"),
+  ("index.indexManager.Search", "if v3.StringArray == nil"),
+  ("index.indexManager.Search", "if v3.Integer == nil"),
+  ("index.indexManager.Search", "if v3.Float == nil"),
+  ("index.indexManager.searchById", "if v4 != nil"),
   ("index.indexManager.searchById", "switch "),
-  ("index.indexManager.searchById", "case q.String != nil"),
-  ("index.indexManager.searchById", "case q.StringArray != nil"),
+  ("index.indexManager.searchById", "case v2.String != nil"),
+  ("index.indexManager.searchById", "case v2.StringArray != nil"),
   ("index.indexManager.searchById", "default"),
-  ("index.indexManager.searchById", "if q.String.Operator != models.OperatorEquals"),
-  ("index.indexManager.searchById", "if q.StringArray.Operator != models.OperatorContainsAny"),
-  ("index.indexManager.searchById", "if err != nil"),
-  ("index.indexManager.searchById", "if err == nil"),
-  ("cluster.ClusterNode.RPCCreateCollection", "if args.Dest != c.MyHostname"),
-  ("cluster.ClusterNode.RPCCreateCollection", "if err != nil"),
-  ("cluster.ClusterNode.RPCCreateCollection", "if err != nil"),
-  ("cluster.ClusterNode.RPCCreateCollection", "if b.Get(key) != nil"),
-  ("cluster.ClusterNode.RPCCreateCollection", "if err != nil"),
-  ("cluster.ClusterNode.RPCCreateCollection", "if count >= args.Collection.UserPlan.MaxCollections"),
-  ("cluster.ClusterNode.RPCCreateCollection", "if err != nil")
+  ("index.indexManager.searchById", "if v2.String.Operator != models.OperatorEquals"),
+  ("index.indexManager.searchById", "if v2.StringArray.Operator != models.OperatorContainsAny"),
+  ("index.indexManager.searchById", "if v9 != nil"),
+  ("index.indexManager.searchById", "if v9 == nil"),
+  ("cluster.ClusterNode.RPCCreateCollection", "if v2.Dest != v1.MyHostname"),
+  ("cluster.ClusterNode.RPCCreateCollection", "if v5 != nil"),
+  ("cluster.ClusterNode.RPCCreateCollection", "if a3 != nil"),
+  ("cluster.ClusterNode.RPCCreateCollection", "if a2.Get(a4) != nil"),
+  ("cluster.ClusterNode.RPCCreateCollection", "if a3 != nil"),
+  ("cluster.ClusterNode.RPCCreateCollection", "if a6 >= v2.Collection.UserPlan.MaxCollections"),
+  ("cluster.ClusterNode.RPCCreateCollection", "if a7 != nil")
 ] := rfl
 
 end Sema.C18
